@@ -5,7 +5,7 @@ PROP = "C07"
 LEVEL = "exploration"
 ENGINE = "EP"
 N = {"quick": 900, "thorough": 60000}
-TIME = {"quick": 45, "thorough": 480}
+TIME = {"quick": 300, "thorough": 480}
 RULE = ("Whole episodes on bar-shaped streams: 1-3 contracts (spot incl. multiplier 10, ES, ZN, user futures; every 8th case a "
         "futures chain ES/NK/ZN/VX rolling over 40-120 steps), spreads, fixed/proportional fees, markup, interest-rate paths incl. "
         "negative, latency {0,5,30}s with extra quotes at L-1ms/L/L+1ms, delay 0-3, late folds, all four reward classes, Box and "
